@@ -260,8 +260,82 @@ def run_case(ctx, c):
         live.close()
 
 
+def _compositions8():
+    for m in range(128):
+        comp, run = [], 1
+        for b in range(7):
+            if m >> b & 1:
+                comp.append(run); run = 1
+            else:
+                run += 1
+        comp.append(run)
+        yield tuple(comp)
+
+
+def bits_sweep(shard, ctx):
+    """enumerated stratum: one byte of Bits fields (composition comp) + Int(1); for every chosen subset of the fields left as Any and
+    every chosen fixed byte P, the corpus holds ALL 256 values of the byte: the character class / range the derived regexp uses for a
+    partially fixed byte is checked element by element (first, last and inner members that are metacharacters of a class: ^ ] \ -)"""
+    from bisturi.pattern_matching import Any, filter as pfilter
+    comps = list(_compositions8())
+    k, quick = shard["k"], ctx.tier == "quick"
+    nsh = 16 if quick else 64
+    metax = sorted(set(META) | set(b | 0x80 for b in META))
+    plan = [((1,) * 8, [m for m in range(256) if m % nsh == k], metax if quick else list(range(256)))]
+    for j in range(1 if quick else 3):
+        comp = comps[(ctx.seed * 131 + k * 7 + j * 41) % 128]
+        nf = len(comp)
+        subsets = [m for m in range(1, 2 ** nf - 1)]
+        plan.append((comp, subsets[:: max(1, len(subsets) // 24)], metax))
+    corpus = [bytes([b, 0x41]) for b in range(256)]
+    for comp, masks, Ps in plan:
+        fields = [{"k": "bits", "name": "b%d" % i, "w": w} for i, w in enumerate(comp)]
+        fam = {"pkts": [{"name": "B", "opts": {}, "fields": fields + [{"k": "int", "name": "q", "n": 1, "signed": False, "endian": None}]}]}
+        live = decl.open_live(ctx, fam, {})
+        if live is None:
+            continue
+        try:
+            for mask in masks:          # bit i of mask set = field i is Any
+                if mask == 0 or mask == 2 ** len(comp) - 1:
+                    continue
+                for P in Ps:
+                    kw, fixed, shift = {"q": Any()}, {}, 8
+                    for i, w in enumerate(comp):
+                        shift -= w
+                        if mask >> i & 1:
+                            kw["b%d" % i] = Any()
+                        else:
+                            kw["b%d" % i] = fixed["b%d" % i] = (P >> shift) & ((1 << w) - 1)
+                    ctx.ev()
+                    case = lambda **k2: decl.describe_case(fam, {}, target=None, fixed=fixed, anys={n: ["any", None] for n in kw if n not in fixed},
+                                                           corpus=corpus, stratum="bits-sweep", **k2)
+                    try:
+                        pat = live.root(**kw)
+                        rx = pat.as_regular_expression()
+                    except Exception as e:
+                        ctx.violation(case(sig="as-regular-expression-raises:" + type(e).__name__, desc="pattern / as_regular_expression() raised %r" % (e,)))
+                        continue
+                    try:
+                        slow = [p.pack() for p in pfilter(pat, corpus, filter_with_regexp_first=False)]
+                        fast = [p.pack() for p in pfilter(pat, corpus, filter_with_regexp_first=True)]
+                    except Exception as e:
+                        ctx.violation(case(sig="filter-raises:" + type(e).__name__, desc="filter raised %r" % (e,), regexp=rx.pattern))
+                        continue
+                    ctx.count("bits_sweep_matches", len(slow))
+                    if slow != fast:
+                        lost = [x for x in slow if x not in fast]
+                        ctx.violation(case(sig="prefilter-rejects-matching-packet" if lost else "prefilter-adds-packet",
+                                           desc="bits sweep %r fixed=%r: without regexp %d packets, with regexp %d; regexp=%r; first lost=%r" % (
+                                               comp, fixed, len(slow), len(fast), rx.pattern, lost[:1]), regexp=rx.pattern))
+                    ctx.nt(("bits-sweep", comp, mask, P))
+                    ctx.count("nontrivial", "bits-sweep")
+        finally:
+            live.close()
+
+
 def run_shard(shard, ctx):
     run_given(ctx, cases(), lambda c: run_case(ctx, c), 400 if ctx.tier == "quick" else 4000)
+    bits_sweep(shard, ctx)
 
 
 def replay(case, ctx):
